@@ -26,16 +26,24 @@ Added probes (helpers in harness/s7_c18.py):
    retried in the next step or dropped, further ordinary steps (add_field, start_update, extend+commit) and further faulted
    batches follow.  Right after every faulted batch and at the end of the history the class is compared, in all the ways above,
    with the one-shot declaration of exactly the fields it now has: nothing from before the batch may survive.
+ * the update protocol as a state machine (harness/v4_c18upd.py; model lean/CstructModel/Update.lean, theorems
+   lean/Proofs/C18Update.lean): random operation histories - add_field, add_field raising before the append, nested
+   `with T.start_update():` blocks left normally or through an exception, explicit commit, commits that raise - executed with real
+   `with` statements; after EVERY operation the class (parameters of the generated __init__, lookup, fields, size, alignment,
+   names and offsets of __fields__, __updating__, the exception commit let escape) is compared with the model's state, and
+   whenever the history stands outside every block the class is compared with the one-shot declaration of the fields added so far.
 """
 from __future__ import annotations
 
 import io
 import itertools
 import re
+import sys
 
 from .. import defs, impl, refimpl
 from .. import s7_c18 as s7
 from .. import t5_c18 as t5
+from .. import v4_c18upd as v4u
 from ..common import A, Case, Result, mkrng, parse_sexp, run_driver, sx
 from ..structprops import rand_bytes
 
@@ -437,6 +445,9 @@ def run(env) -> Result:
                 res.count(("interrupted", str(specs), align, compiled, endian, str(steps)), any(s_["mode"] == "fault" and s_["add"] for s_ in steps))
                 interrupted_case(dc, cd, viol, res, "F23" if f23 else None)
 
+    # the update protocol as a state machine, operation by operation against the Lean model (own PRNG stream)
+    v4u.run(env, res, viol, mkrng(env["seed"], "c18-upd"), sys.modules[__name__])
+
     # definitions through the parser: a named top-level struct is pre-registered empty (compiled if requested), then extended and
     # committed; the same field list declared in one piece must give the same class
     def parser_probe(text, names, endian, align, compiled, ptr, kind):
@@ -522,7 +533,9 @@ def replay(body) -> int:
         found.append(what)
 
     dc = impl.dc()
-    if "history" in case:
+    if "history" in case and "data_seed" in case:
+        v4u.replay_case(sys.modules[__name__], case, viol)
+    elif "history" in case:
         interrupted_case(dc, case, viol)
     elif "batches" in case:
         specs = [ast.literal_eval(x) for x in case["fields"]]
